@@ -1,5 +1,108 @@
-import Plonk.Model.Composer
+/-
+  C12 — Curve-group components compute the JubJub group law.
+
+  STATUS: this file holds the *math-level core* of C12 (field facts, the host-side addition
+  `edAdd?`/`edAddOrId`, the row semantics of the curve-addition gate, the ladder), each about the
+  model's own functions, each followed by a non-vacuity example.
+  MISSING (composer glue, not in this file yet): the gadget-level theorems about
+  `Composer.addPointGates`, `componentNegPoint`, `componentSubPoint`, `componentSelectIdentity`,
+  `componentSelectPoint`, `componentMulPoint` (rows appended to a `Composer` state, `sysSat`).
+  Nothing here depends on `JubjubGroupFacts`: associativity of the addition law is proved
+  (`Plonk/Proofs/EdwardsAssoc.lean`); the group *order* is not needed for C12.
+-/
+import Plonk.Proofs.EdwardsExamples
 namespace Plonk.Props.C12
 open Plonk
+
 theorem placeholder_consts : Generated.JUBJUB_SCALAR_BITS = 252 ∧ Generated.FIXED_BASE_LEADING_ZERO_ROUNDS = 3 ∧ Generated.MUL_POINT_BITS = 252 := by decide
+
+/-- `EDWARDS_D` is a quadratic non-residue of `F_r` (Euler's criterion, kernel-evaluated). -/
+theorem d_nonresidue : ¬ IsSquare (toF EDWARDS_D) := Plonk.d_nonresidue
+
+/-- `−1` is a quadratic residue of `F_r`. -/
+theorem neg_one_residue : IsSquare (-1 : F) := Plonk.neg_one_is_square
+
+/-- Completeness of the addition law on the model's points: on curve points the denominators
+    `1 ± d·x₁x₂y₁y₂` do not vanish, `edAdd?` succeeds, `edAddOrId` (what `add_point_gates`
+    computes on the host) never takes its identity fallback, and the sum is on the curve. -/
+theorem add_complete (p q : Pt) (hp : onCurve p = true) (hq : onCurve q = true) :
+    (1 + toF EDWARDS_D * toF p.1 * toF q.1 * toF p.2 * toF q.2 ≠ 0 ∧
+     1 - toF EDWARDS_D * toF p.1 * toF q.1 * toF p.2 * toF q.2 ≠ 0) ∧
+    edAdd? p q = some (edAddOrId p q) ∧
+    onCurve (edAddOrId p q) = true :=
+  ⟨Plonk.add_complete ((onCurve_iff p).mp hp) ((onCurve_iff q).mp hq),
+   edAdd?_on_curve p q hp hq, edAddOrId_on_curve p q hp hq⟩
+
+example : onCurve exG = true ∧ exG ≠ Pt.id := ⟨exG_on_curve, by decide +kernel⟩
+example : edAdd? exG exG = some (edAddOrId exG exG) := (add_complete exG exG exG_on_curve exG_on_curve).2.1
+/-- the hypothesis matters: off the curve `edAdd?` does hit poles -/
+example : ∃ p q : Pt, edAdd? p q = none := ⟨(1, 1), (fneg (finv EDWARDS_D), 1), by decide +kernel⟩
+
+/-- The host-side addition is associative and commutative on curve points (so the points with
+    `edAddOrId`, `Pt.id`, `edNeg` form an abelian group: `CurvePt.addCommGroup`). -/
+theorem add_assoc_comm (p q r : Pt) (hp : onCurve p = true) (hq : onCurve q = true)
+    (hr : onCurve r = true) :
+    edAddOrId (edAddOrId p q) r = edAddOrId p (edAddOrId q r) ∧ edAddOrId p q = edAddOrId q p :=
+  ⟨edAddOrId_assoc p q r hp hq hr, edAddOrId_comm p q hp hq⟩
+
+example : edAddOrId (edAddOrId exG exG) (edNeg exG) = edAddOrId exG (edAddOrId exG (edNeg exG)) :=
+  (add_assoc_comm exG exG (edNeg exG) exG_on_curve exG_on_curve
+    (edNeg_on_curve exG exG_on_curve)).1
+
+/-- The three components of the curve-addition widget in the field
+    (`x1=a, y1=b, x2=c, y2=d` on the row; `x3=a', y3=b', x1y2=d'` on the next row). -/
+theorem var_add_comps_iff (a an b bn c d dn : Nat) :
+    allZero (varComps a an b bn c d dn) = true ↔
+      toF a * toF d = toF dn ∧
+      toF an * (1 + toF EDWARDS_D * toF dn * (toF b * toF c)) = toF dn + toF b * toF c ∧
+      toF bn * (1 - toF EDWARDS_D * toF dn * (toF b * toF c)) = toF b * toF d + toF a * toF c :=
+  varComps_zero_iff a an b bn c d dn
+
+/-- `var_add_rows_iff`, row form: for the gate laid down by `Constraint.groupAddVariableBase`, with
+    on-curve inputs on the row and canonical (reduced) values on the next row, the row holds iff
+    the helper wire is `x₁·y₂` and `(x₃, y₃)` is the host's sum — unique helper, unique output. -/
+theorem var_add_row_iff (s : Constraint) (a b c d an bn dn : Nat)
+    (h1 : onCurve (a, b) = true) (h2 : onCurve (c, d) = true)
+    (han : an < R) (hbn : bn < R) (hdn : dn < R) :
+    rowHolds (Constraint.groupAddVariableBase s).toGate a b c d an bn dn 0 = true ↔
+      dn = fmul a d ∧ (an, bn) = edAddOrId (a, b) (c, d) := by
+  obtain ⟨hv, ha, hr, hl, hf⟩ := groupAddVariableBase_selectors s
+  rw [rowHolds_var _ hv ha hr hl hf, ← varComps_zero_iff_VarRowF,
+    varComps_zero_iff_model _ _ _ _ _ _ _ h1 h2 han hbn hdn]
+
+/-- non-vacuity: the honest next row satisfies it, a wrong helper wire does not -/
+example : ∃ an bn dn, an < R ∧ bn < R ∧ dn < R ∧
+    rowHolds (Constraint.groupAddVariableBase { a := 1, b := 2, c := 1, d := 2 }).toGate
+      exG.1 exG.2 exG.1 exG.2 an bn dn 0 = true :=
+  have h : onCurve (exG.1, exG.2) = true := exG_on_curve
+  have hlt := edAddOrId_lt (exG.1, exG.2) (exG.1, exG.2)
+  ⟨_, _, _, hlt.1, hlt.2, fmul_lt exG.1 exG.2,
+    (var_add_row_iff _ _ _ _ _ _ _ _ h h hlt.1 hlt.2 (fmul_lt _ _)).mpr ⟨rfl, rfl⟩⟩
+example : rowHolds (Constraint.groupAddVariableBase { a := 1, b := 2, c := 1, d := 2 }).toGate
+    exG.1 exG.2 exG.1 exG.2 (edAddOrId exG exG).1 (edAddOrId exG exG).2 0 0 = false := by
+  decide +kernel
+
+/-- Closure through a row: on-curve inputs and a satisfied row force an on-curve output (this is
+    what lets the doublings of the torsion-free gadget and the ladder be chained). -/
+theorem var_add_row_on_curve (a an b bn c d dn : Nat)
+    (h1 : onCurve (a, b) = true) (h2 : onCurve (c, d) = true)
+    (hr : allZero (varComps a an b bn c d dn) = true) : onCurve (an, bn) = true :=
+  varComps_on_curve a an b bn c d dn h1 h2 hr
+
+/-- `ladder_is_scalar_mul`: the MSB-first double-and-add ladder
+    `acc ← edAddOrId (edAddOrId acc acc) (if bᵢ then P else O)` from the identity (the host-side
+    computation of `component_mul_point`) stays on the curve and computes the scalar multiple
+    `[Σ bᵢ 2^…]P` defined by repeated addition.  Unconditional. -/
+theorem ladder_is_scalar_mul (P : Pt) (hP : onCurve P = true) (bits : List Bool) :
+    onCurve (bits.foldl (fun acc b => edAddOrId (edAddOrId acc acc) (if b then P else Pt.id))
+      Pt.id) = true ∧
+    toFP (bits.foldl (fun acc b => edAddOrId (edAddOrId acc acc) (if b then P else Pt.id)) Pt.id)
+      = smulF (bitsValMSB bits 0) (toFP P) :=
+  ladderModel_is_scalar_mul P hP bits
+
+example : toFP ([true, false, true].foldl
+    (fun acc b => edAddOrId (edAddOrId acc acc) (if b then exG else Pt.id)) Pt.id)
+      = smulF 5 (toFP exG) :=
+  (ladder_is_scalar_mul exG exG_on_curve [true, false, true]).2
+
 end Plonk.Props.C12
